@@ -75,10 +75,43 @@ class Kit:
         where.setdefault("env", self.name)
         for p in pids:
             self.res[p].fail(what, where, replay)
+        # C03 on constructed / replayed states: when model and implementation disagree on a step, the implementation's OWN timestep
+        # (the vector last handed to diff_fields) is held against the protocol -- the model's is proved to satisfy it
+        from harness import envkit as _ek      # the canonical module instance (this file also runs as __main__ in the stage subprocesses)
+        last = _ek._last_cmp[0]
+        if str(where.get("op", "")).startswith("corr-step") and "C03" not in pids and last is not None:
+            v = proto_violation(last[0], last[1], trunc_ok=(self.name == "lbf"))
+            if v:
+                self.res["C03"].fail("implementation timestep breaks the protocol: " + v, where, replay)
+
+
+_last_cmp = [None]
+
+
+def proto_violation(layout, vec, trunc_ok=False):
+    """the C03 protocol on one encoded STEP timestep of the implementation (fields step_type / discount of the layout): never FIRST,
+    a MID timestep never has an all-zero discount, a LAST timestep has zero discount unless the environment documents truncation"""
+    i, st, disc = 0, None, None
+    for name, n in layout:
+        if name == "step_type" and n == 1:
+            st = vec[i] if i < len(vec) else None
+        if name == "discount":
+            disc = list(vec[i:i + n])
+        i += n
+    if st is None or not disc or len(vec) != i:
+        return None
+    if st not in (1, 2):
+        return "step returned step_type %r" % (st,)
+    if st == 1 and all(d == 0 for d in disc):
+        return "MID timestep with an all-zero discount"
+    if st == 2 and any(d != 0 for d in disc) and not trunc_ok:
+        return "LAST timestep with a non-zero discount %r (no truncation documented)" % (disc,)
+    return None
 
 
 def diff_fields(layout, got, exp):
-    """layout: [(name, length)] -> names of fields whose slices differ (plus 'length' if sizes differ)"""
+    """layout: [(name, length)] -> names of fields whose slices differ (plus 'length' if sizes differ); exp = the implementation's vector"""
+    _last_cmp[0] = (layout, exp)
     bad = []
     i = 0
     for name, n in layout:
